@@ -17,4 +17,3 @@ for p in $props; do
 done
 git -C /repo checkout -- . ; git -C /repo clean -fdq -e verifhook 2>/dev/null
 git -C /repo status --short | head -3; /verif/tools/regen.sh >/dev/null
-tools/regen.sh
